@@ -7,12 +7,149 @@ const char* vh_property = "C15";
 static const char* FMT[3] = {"fasta", "clu", "msf"};
 #define NBIGROWS 2      /* writers' line buffer growth: > 1024 output lines */
 
-uint64_t vh_total(int tier) { return (af_count(tier) + NBIGROWS) * 3 * 2; }
+/* ragged read inputs: 2..3 records, 1..3 residues each, 0..1 leading and 0..2 trailing gap characters, read from a FASTA file and
+   written without a run (what kalignfmt does): the writer may refuse; a file it does write must be well-formed */
+#define ROPT 18
+static uint64_t nragged(void) { return (uint64_t)(ROPT * ROPT + ROPT * ROPT * ROPT) * 3; }
+static uint64_t nbase(int tier) { return (af_count(tier) + NBIGROWS) * 3 * 2; }
+uint64_t vh_total(int tier) { return nbase(tier) + nragged(); }
+
+static int ragged_decode(uint64_t id, char rows[3][16], int* f)
+{
+        int n, i;
+        *f = (int)(id % 3);
+        id /= 3;
+        if(id < ROPT * ROPT){
+                n = 2;
+        }else{
+                id -= ROPT * ROPT;
+                n = 3;
+        }
+        for(i = 0; i < n; i++){
+                int o = (int)(id % ROPT), len = 1 + o % 3, lead = (o / 3) % 2, trail = o / 6, q, k = 0;
+                id /= ROPT;
+                for(q = 0; q < lead; q++){
+                        rows[i][k++] = '-';
+                }
+                for(q = 0; q < len; q++){
+                        rows[i][k++] = "ACGT"[(q + i) % 4];
+                }
+                for(q = 0; q < trail; q++){
+                        rows[i][k++] = '-';
+                }
+                rows[i][k] = 0;
+        }
+        return n;
+}
+
+static int ragged_case(uint64_t id)
+{
+        char rows[3][16], txt[256];
+        int f, n = ragged_decode(id, rows, &f), i, rc;
+        size_t o = 0, dl;
+        const char* in = vh_tmp("c15r.in");
+        const char* out = vh_tmp("c15r.out");
+        struct msa* m = NULL;
+        char* data;
+        struct fp_aln p;
+        for(i = 0; i < n; i++){
+                o += (size_t)snprintf(txt + o, sizeof txt - o, ">r%d\n%s\n", i, rows[i]);
+        }
+        vh_write_file(in, txt, o);
+        unlink(out);
+        vh_count("library_calls");
+        if(kalign_read_input((char*)in, &m, 1) != OK || !m){
+                vh_count("ragged_input_not_read");
+                if(m){
+                        kalign_free_msa(m);
+                }
+                return VH_SKIP;
+        }
+        rc = kalign_write_msa(m, (char*)out, (char*)FMT[f]);
+        kalign_free_msa(m);
+        if(rc != OK){
+                vh_count("ragged_input_refused_by_the_writer");
+                return VH_OK;
+        }
+        data = vh_read_file(out, &dl);
+        if(!data){
+                vh_fail("sem:no-output", "the writer returned OK without writing a file");
+                return VH_OK;
+        }
+        if(memchr(data, 0, dl)){
+                vh_fail("sem:nul-in-output", "%s: the file written contains a NUL byte", FMT[f]);
+                free(data);
+                return VH_OK;
+        }
+        rc = f == 0 ? fp_parse_fasta(data, &p) : (f == 1 ? fp_parse_clustal(data, &p) : fp_parse_msf(data, &p));
+        if(rc){
+                vh_fail("sem:unparsable", "%s output cannot be parsed: %s", FMT[f], p.err);
+        }else if(p.n != n){
+                vh_fail("sem:row-count", "%s: %d rows in the file, %d records read", FMT[f], p.n, n);
+        }else{
+                int w = (int)strlen(p.row[0]), bad = 0;
+                for(i = 0; i < n && !bad; i++){
+                        char a[16], b[16];
+                        int x = 0, y = 0;
+                        const char* c;
+                        if((int)strlen(p.row[i]) != w){
+                                vh_fail("sem:ragged-rows-written", "%s: row %d has %d columns, row 0 has %d", FMT[f], i, (int)strlen(p.row[i]), w);
+                                bad = 1;
+                                break;
+                        }
+                        for(c = p.row[i]; *c && x < 15; c++){
+                                if(*c != '-'){
+                                        a[x++] = *c;
+                                }
+                        }
+                        a[x] = 0;
+                        for(c = rows[i]; *c; c++){
+                                if(*c != '-'){
+                                        b[y++] = *c;
+                                }
+                        }
+                        b[y] = 0;
+                        if(strcmp(a, b) != 0){
+                                vh_fail("sem:rows-differ", "%s: row %d holds \"%s\", the record read holds \"%s\"", FMT[f], i, a, b);
+                                bad = 1;
+                        }
+                }
+                if(!bad && f == 2){
+                        int sum = 0;
+                        if(p.msf_len != w){
+                                vh_fail("sem:msf.len", "MSF: header declares length %d, rows have %d columns", p.msf_len, w);
+                        }
+                        for(i = 0; i < n; i++){
+                                int chk = fp_gcg_checksum(p.row[i], w);
+                                sum = (sum + chk) % 10000;
+                                if(p.decl_len[i] != w || p.decl_check[i] != chk){
+                                        vh_fail("sem:msf.seq-check", "MSF: row %d declared Len %d Check %d, written row has %d columns and checksum %d", i, p.decl_len[i], p.decl_check[i], w, chk);
+                                        break;
+                                }
+                        }
+                        if(p.msf_check != sum){
+                                vh_fail("sem:msf.total-check", "MSF: total Check: %d, sum of the row checksums mod 10000 is %d", p.msf_check, sum);
+                        }
+                }
+                if(!bad){
+                        vh_count("ragged_inputs_written");
+                }
+        }
+        fp_free(&p);
+        free(data);
+        return VH_OK;
+}
 
 void vh_describe(uint64_t id, int tier, char* buf, size_t n)
 {
         int tostdout = (int)(id % 2), f = (int)((id / 2) % 3);
         uint64_t k = id / 6;
+        if(id >= nbase(tier)){
+                char rows[3][16];
+                int ff, nn = ragged_decode(id - nbase(tier), rows, &ff);
+                snprintf(buf, n, "records read from FASTA and written as %s without a run: \"%s\" \"%s\" \"%s\"", FMT[ff], rows[0], rows[1], nn > 2 ? rows[2] : "");
+                return;
+        }
         if(k >= af_count(tier)){
                 snprintf(buf, n, "large alignment #%d (more than 1024 output lines) written as %s to %s", (int)(k - af_count(tier)), FMT[f], tostdout ? "stdout" : "a file");
         }else{
@@ -56,6 +193,9 @@ int vh_case(uint64_t id, int tier)
         char* data;
         size_t dl;
         struct fp_aln p;
+        if(id >= nbase(tier)){
+                return ragged_case(id - nbase(tier));
+        }
         if(k >= af_count(tier)){
                 vh_case_timeout = 200;
                 alarm(200);
@@ -70,6 +210,12 @@ int vh_case(uint64_t id, int tier)
         if(b < 0){
                 vh_fail("sem:aligned-file-not-read", "a legal aligned FASTA file could not be read");
                 return VH_OK;
+        }
+        if(a.maxname > 254 && f != 0){
+                /* Clustal and MSF cap names at 255 characters: names beyond that are judged in FASTA output only */
+                af_free(&a);
+                vh_count("long_names_judged_in_fasta_only");
+                return VH_SKIP;
         }
         unlink(out);
         vh_count("library_calls");
